@@ -430,11 +430,14 @@ def build(ctx):
     ctx.pattern("crystal.Crystal/bounds/accumulated_over_centres", not acc_bad, fallback=native_fallback,
                clause="multi-centre queries take, per axis, the maximum of ceil(extent + centre) and the minimum of floor(centre - extent) over all centre atoms and pass them to slab unchanged",
                detail=acc_bad)
-    ok, detail = frames.map_loop(f_slab.node, 0, set(), local_ok=())
-    # slab's loop stores into slices of pos / slab_cells indexed by the loop counter: check disjoint block stores instead of append
-    loop = [x for x in ast.walk(f_slab.node) if isinstance(x, ast.For)][0]
-    stores = [ast.unparse(t) for s in loop.body if isinstance(s, ast.Assign) for t in s.targets]
-    ok_blocks = stores == ["pos[i * n_uc:(i + 1) * n_uc, :]", "slab_cells[i * n_uc:(i + 1) * n_uc]"] and ast.unparse(loop.iter) == "enumerate(cells)"
+    # slab's loop stores into slices of pos / slab_cells indexed by the loop counter: check disjoint block stores instead of append.  (A slab written without a loop —
+    # broadcasting — has no such shape: the clause is then decided by the layout instance below and the run-time fall-back.)
+    loops_ = [x for x in ast.walk(f_slab.node) if isinstance(x, ast.For)]
+    stores, ok_blocks = [], False
+    if loops_:
+        loop = loops_[0]
+        stores = [ast.unparse(t) for s in loop.body if isinstance(s, ast.Assign) for t in s.targets]
+        ok_blocks = stores == ["pos[i * n_uc:(i + 1) * n_uc, :]", "slab_cells[i * n_uc:(i + 1) * n_uc]"] and ast.unparse(loop.iter) == "enumerate(cells)"
     ctx.pattern("crystal.Crystal.slab/loop0/block_stores", ok_blocks, clause="iteration i writes rows [i*n_uc, (i+1)*n_uc) of pos and slab_cells only (disjoint blocks, one per cell)",
                 detail=stores, fn=f_slab, fallback=native_fallback)
 
